@@ -404,6 +404,10 @@ class Spec:
                 return 'b', ['gb'], ('iter', pos[1], None, None)
             if k == 'i':
                 return 'i:%d' % st[1], ['(gi %d)' % st[1]], ('entry', pos[1]['level'], None, None)
+            if k in ('gbk', 'ed'):
+                return k, ['nomodel'], ('entry', pos[1]['level'], None, None)
+            if k == 'em':
+                return 'em:%d' % st[1], ['nomodel'], ('entry', pos[1]['level'], None, None)
         if t == 'iter':
             if k == '+':
                 return '+', ['inc'], ('iter', pos[1], None, None)
@@ -516,6 +520,16 @@ class Spec:
                 if st[1] >= self.rd(p + dim['numOff'], dim['numSize']):
                     ch.pre_ok = False
                 return ('entry', g['level'], p + dim['size'] + st[1] * bl, bl)
+            if k in ('gbk', 'ed', 'em'):
+                # the entry reached through the past-the-end iterator (no Lean model of this composition: judged
+                # implementation vs specification)
+                ch.modelled = False
+                num = self.rd(p + dim['numOff'], dim['numSize'])
+                back = 1 if k in ('gbk', 'ed') else st[1]
+                if not 1 <= back <= num:
+                    ch.pre_ok = False
+                    return ('entry', g['level'], p + dim['size'], bl)
+                return ('entry', g['level'], p + dim['size'] + (num - back) * bl, bl)
         if t == 'iter':
             g, ptr, bl = pos[1:]
             if k == '+':
@@ -836,7 +850,8 @@ def kind_name(pos, st):
                           'er': 'erase_range', 'er1': 'erase', 'ins': 'insert_n', 'ins1': 'insert', 'rs': 'resize_value',
                           'rv': 'resize_fill', 'af': 'assign_iter', 'an': 'assign_n', 'as': 'assign_string',
                           'ai': 'assign_ilist', 'insr': 'insert_range', 'insi': 'insert_ilist'}[k]
-    names = {'H': 'get_header', 'G': 'group_view', 'D': 'data_view', 'z': 'size_bytes', 'n': 'size', 'b': 'begin',
+    names = {'gbk': 'back', 'ed': 'end.dec.deref', 'em': 'end.minus.deref',
+             'H': 'get_header', 'G': 'group_view', 'D': 'data_view', 'z': 'size_bytes', 'n': 'size', 'b': 'begin',
              'i': 'operator[]', '+': 'iterator.inc', '*': 'iterator.deref', 'dd': 'data', 'e': 'elem.read',
              'w': 'elem.write', 'r': 'resize', 'a': 'assign_range', 'rn': 'raw.size', 're': 'raw.elem.read',
              'rw': 'raw.elem.write'}
@@ -922,6 +937,14 @@ def enum_chains(spec, max_entries=2, max_chains=400, extra_counts=(), only_data=
             add(gp + [('b',)] + [('+',)] * min(num, max_entries + 1))
             if flat and num > 0:
                 add(gp + [('i', num - 1)])
+            if flat and 0 < num <= max(max_entries, 64):
+                for st_ in (('gbk',), ('ed',), ('em', 1), ('em', num)):
+                    add(gp + [st_])
+                    if g['level']['leaves']:
+                        add(gp + [st_, ('leaf', 0, 'g', 0)])
+                        lf0 = g['level']['leaves'][-1]
+                        if lf0['kind'] != 'array':
+                            add(gp + [st_, ('leaf', len(g['level']['leaves']) - 1, 's', _bits(lf0['size']))])
         for k, d in enumerate(lv['datas']):
             dp = prefix + [('D', k)]
             add(dp)
